@@ -169,6 +169,38 @@ theorem query_positions_partial {buf : Bytes} {ts rest : List Token} {fuel : Nat
   | nil => exact absurd rfl ho.1
   | cons t r => rfl
 
+/-- on lexer output the statement parser never consumes the `<eof>` token -/
+theorem eof_not_consumed {buf : Bytes} {ts rest : List Token} {f : Nat} {q : QueryStatement}
+    (hl : Lex.lexAll buf = .ok ts) (h : parseQueryStatement f ts = .ok (q, rest)) : rest ≠ [] := rest_ne_nil hl h
+
+/-- **C05 for the statement node, no side hypothesis**: for lexer output and the tree returned by ParseQuery, the
+QueryStatement (= its Query / Select) is token-aligned, `Pos() < End() ≤ len(input)`, starts at the first token, and its
+Select node is token-aligned with the same `Pos()` and `Pos() < End()` -/
+theorem query_positions {buf : Bytes} {ts : List Token} {fuel : Nat} {q : QueryStatement}
+    (hl : Lex.lexAll buf = .ok ts) (h : parseQueryTop fuel ts = .ok q) :
+    (∃ t ∈ ts, t.pos = posQ q) ∧ (∃ t ∈ ts, t.end = endQ q) ∧ posQ q < endQ q ∧ endQ q ≤ buf.length ∧
+      posQ q = (hd ts).pos ∧
+      (∃ t ∈ ts, t.end = endSelect (selectOf q.query)) ∧ (selectOf q.query).select = posQ q ∧
+      (selectOf q.query).select < endSelect (selectOf q.query) := by
+  unfold parseQueryTop at h
+  obtain ⟨⟨q1, rest⟩, hp, hk⟩ := Res.bind_eq_ok.1 h
+  have hq : q1 = q := by
+    simp only at hk
+    split at hk
+    · cases hk; rfl
+    · cases hk
+  subst hq
+  have hr := rest_ne_nil hl hp
+  obtain ⟨a, b, c, d, e⟩ := query_positions_partial hl hp hr
+  have hT : TokensOK buf.length ts := ⟨(lexAll_lexed hl).tok, Lex.lexAll_len hl⟩
+  obtain ⟨run, tail, hts, ho, _, srun, stail, hos, bb, hb⟩ := parseQueryStatement_over hT hp
+  have hts2 : ts = [] ++ srun ++ (stail ++ bb ++ rest) := by rw [hts, hb]; simp
+  obtain ⟨_, s2, s3, _⟩ := over_facts hl hts2 (by simp [hr]) hos
+  have hsel : (selectOf q1.query).select = posQ q1 := by
+    obtain ⟨q0⟩ := q1
+    cases q0 <;> rfl
+  exact ⟨a, b, c, d, e, s2, hsel, s3⟩
+
 /-- lexer output satisfies the token facts -/
 theorem lexed_tokensOK {buf : Bytes} {ts : List Token} (hl : Lex.lexAll buf = .ok ts) : TokensOK buf.length ts :=
   ⟨(lexAll_lexed hl).tok, Lex.lexAll_len hl⟩
